@@ -1154,6 +1154,16 @@ psf_binheader_readf (SF_PRIVATE *psf, char const *format, ...)
 
 			case 'j' :	/* Seek to position from current position. */
 					count = va_arg (argptr, size_t) ;
+					/*
+					**	The parsers step back by the width of a marker at most (to
+					**	resynchronise). Anything else that arrives here as a negative
+					**	number is a length of 2 GiB or more taken from the file, and
+					**	stepping back by it sends a chunk parser round in circles.
+					*/
+					if (count < -4)
+					{	psf_log_printf (psf, "*** Ignoring jump of %u bytes.\n", (unsigned) count) ;
+						count = 0 ;
+						} ;
 					header_seek (psf, count, SEEK_CUR) ;
 					read_bytes = count ;
 					break ;
